@@ -572,6 +572,8 @@ class World:
         self.killed = []
         self.fault_hits = []
         self.hook_rc = {}
+        self.observe_rows = False  # record the set of result rows on disk at every lock release
+        self.rowsets = []
         self.observers = []  # callables(rec) invoked synchronously at every log record
         self.extra_cmds = {}  # argv0 -> handler(world, vt, argv, env) -> SyncResult
         self._saved_environ = None
@@ -598,6 +600,14 @@ class World:
     def _note_lock(self, what, path, vt):
         self.effects += 1
         base = os.path.basename(path)
+        if self.observe_rows and what == "release":
+            d = os.path.dirname(path)
+            if os.path.basename(d) == "results":
+                d = os.path.dirname(d)
+            if os.path.exists(os.path.join(d, "processed_results.csv")):
+                names = sorted(read_result_names(d))
+                if not self.rowsets or self.rowsets[-1][1] != names:
+                    self.rowsets.append((len(self.log), names, vt.proc.name))
         if base == "cluster_config.json.lock":
             self.note("clock", op=what, by=vt.proc.name, dir=os.path.dirname(path))
             if what == "release" and self.snapshots:
@@ -638,6 +648,8 @@ class World:
             if f.get("kind") == "kill" and not f.get("done"):
                 if self._match_target(f, vt) and f["at"] == self._target_points(f, vt):
                     f["done"] = True
+                    if vt.batch is not None:
+                        self.slurm[vt.batch]["death_state"] = f.get("state", "NODE_FAIL")
                     self.kill(vt, why=f"fault@{reason[0]}")
                     return
 
@@ -645,8 +657,15 @@ class World:
         if "inv" in f:
             p = vt.proc
             return p.inv is not None and p.inv == f["inv"]
-        if "batch" in f:  # n-th started batch's node process (any of its processes)
-            return vt.batch is not None and self.slurm[vt.batch]["start_ord"] == f["batch"]
+        if "batch" in f:  # n-th started batch's node process
+            if vt.batch is None or self.slurm[vt.batch]["start_ord"] != f["batch"]:
+                return False
+            if f.get("runner_only") and vt.proc is not vt.root:
+                # the point falls while the node acts as submitter (C11's domain): excluded, counted
+                if f["at"] == self._target_points(f, vt):
+                    f["excluded"] = True
+                return False
+            return True
         if "thread" in f:
             return vt.name == f["thread"]
         return False
@@ -686,7 +705,9 @@ class World:
             if j.vt is vt and j.returncode is None:
                 j.died = True
         self.killed.append(vt.name)
-        self.note("kill", thread=vt.name, why=why, proc=vt.proc.name)
+        rec = self.note("kill", thread=vt.name, why=why, proc=vt.proc.name, batch=vt.batch)
+        if vt.batch is not None and self.slurm[vt.batch].get("outdir"):
+            rec["rows_on_disk"] = sorted(read_result_names(self.slurm[vt.batch]["outdir"]))
 
     # ---------------------------------------------------------------- file layer
     def under_root(self, path):
@@ -939,6 +960,10 @@ class World:
         self.last = vt
 
     def _runnable(self, vt):
+        if vt.state == "done":
+            return None
+        if vt.dead:
+            return "ready"  # a killed process only unwinds (every primitive raises Killed)
         if vt.state == "ready":
             return "ready"
         if vt.state == "blocked":
